@@ -124,13 +124,14 @@ def snapshot(error):
     return snap
 
 
-def read_with_reader(cid, source, mode="yield", until=None, stop_after=None):
+def read_with_reader(cid, source, mode="yield", until=None, stop_after=None, reader=None):
     """Drives cutplace.Reader explicitly so that row errors, the end-of-data verdict and the counters
-    are observed separately."""
+    are observed separately. A reader created earlier by the caller (for the same source and mode) can be passed."""
     from cutplace import errors, validio
 
     obs = Observation()
-    reader = validio.Reader(cid, source, on_error=mode, validate_until=until)
+    if reader is None:
+        reader = validio.Reader(cid, source, on_error=mode, validate_until=until)
     try:
         try:
             for item in reader.rows():
